@@ -751,6 +751,29 @@ CANARY = [
 ]
 
 
+# membership asked of an ITERATOR over a sequence (after k items were taken): it consumes the iterator up to the match - it is not answered from the sequence behind it
+ITER_MEMBERSHIP_PROG = 'def chk(name, mk, needles):\n    for k in (0, 1, 2):\n        for nd in needles:\n            it = iter(mk())\n            try:\n                for j in range(k):\n                    next(it)\n            except StopIteration:\n                pass\n            try:\n                r = nd in it\n            except TypeError:\n                r = "TypeError"\n            print(name, k, nd, r, list(it))\nchk("range10", lambda: range(10), [0, 3, 9, 10, -1])\nchk("range-step", lambda: range(0, 10, 2), [0, 4, 5, 8])\nchk("range-neg", lambda: range(5, 0, -1), [5, 3, 0])\nchk("range-empty", lambda: range(0), [0])\nchk("list", lambda: [10, 11, 12, 13], [10, 12, 99])\nchk("tuple", lambda: (10, 11, 12, 13), [10, 12, 99])\nchk("str", lambda: "abcd", ["a", "c", "z"])\nchk("enumerate", lambda: enumerate("ab"), [(0, "a"), (1, "b"), (2, "c")])\nchk("zip", lambda: zip("ab", "cd"), [("a", "c"), ("b", "d"), ("x", "y")])\nchk("map", lambda: map(str, [1, 2, 3]), ["1", "3", "9"])\nchk("gen", lambda: (x * x for x in range(5)), [0, 4, 5, 16])\nit = iter(range(5))\nprint(3 in it, 3 in it, list(it))\nit = iter([1, 2, 3, 4])\nprint(2 in it, 1 in it, list(it))\n'
+
+
+def directed_program_check(rep, nontriv):
+    case = {'id': 'membership-of-iterator', 'src': ITER_MEMBERSHIP_PROG}
+    e = common.oracle_exec([case]).get(case['id']) or {}
+    g = (run_vrun('exec', [case], timeout_case=30)[0]).get(case['id'])
+    if g is None or e.get('oracle_failed') or e.get('exc') or e.get('cerr'):
+        rep.inconc('membership-of-iterator program: no result / oracle failed')
+        return 0
+    el, gl = (e.get('out') or '').split('\n')[:-1], (g.get('out') or '').split('\n')
+    for k, x in enumerate(el):
+        rep.evaluations += 1
+        nontriv.add(('membership-of-iterator', k))
+        y = gl[k] if k < len(gl) else None
+        if x != y:
+            rep.violation('C13|membership-of-iterator|%s|%s' % (x.split(' ')[0], 'panic' if g.get('panic') or g.get('crash') else ('escaped:%s' % g.get('exc') if y is None and g.get('exc') else 'wrong-result')),
+                          {'case': case, 'expected': x, 'got': y, 'exc': g.get('exc'), 'excmsg': g.get('excmsg'), 'panic': g.get('panic')})
+            break
+    return len(el)
+
+
 def run(tier, rep):
     import time, gc
     gc.disable()  # millions of small acyclic objects; the collector only costs time here
@@ -945,6 +968,7 @@ def run(tier, rep):
     rep.extra['oracle_disagreement_src'] = src_dis
     rep.extra['source_programs'] = len(progs)
     tm['end'] = round(time.time() - t0, 1)
+    directed_program_check(rep, nontriv)
     rep.nontrivial = nontriv
     rep.samples = samples + [{'source_program': progs[0]['src'][len(SHOW):]}] if progs else samples
     rep.rule = ('exhaustive: sequence type in {list, tuple, str (ASCII), str (1-4 byte code points), bytes, range(n), range(5,5+3n,3), range(n-1,-1,-1)} x length 0..6 x '
